@@ -43,7 +43,8 @@ def make_qmap(case, dt):
 
 def qfd_job(job):
     from desolver.utilities.utilities import JacobianWrapper
-    case, base, adaptive = job
+    case, base, adaptive = job[:3]
+    reuse = len(job) > 3 and bool(job[3])
     dt = np.dtype("float64")
     m, n = case["m"], case["n"]
     g = make_qmap(case, dt)
@@ -54,7 +55,13 @@ def qfd_job(job):
         kw = {} if base is None else {"base_order": base}
         if not adaptive:
             kw["adaptive"] = False
-        J = np.asarray(JacobianWrapper(g, **kw)(x0))
+        w_ = JacobianWrapper(g, **kw)
+        if reuse:
+            # the same wrapper has differentiated the map at two other points before: nothing of those evaluations may leak into this one
+            w_(x0 * 1.25 + 0.5)
+            w_(x0 * 0.5 - 0.25)
+            out["family"] = "mixed-magnitude, wrapper re-used"
+        J = np.asarray(w_(x0))
         out["ran"] = True
         out["shapeOk"] = bool(tuple(J.shape) == (m, n))
         if out["shapeOk"]:
@@ -195,6 +202,7 @@ def check(run, replay=None):
                     jobs.append((c, dtn, xs, fs, 4, False))       # non-adaptive extrapolation
     gen_out = core.generate("JacMaps", name="JacMaps_q", workers=2)[0]
     qjobs = [(c, base, ad) for c in gen_out["qcases"] for (base, ad) in ((None, True), (4, False), (2, False), (3, False), (5, False), (5, True))]
+    qjobs += [(c, base, True, True) for c in gen_out["qcases"] for base in (None, 2, 3, 5)]
     obs = core.pool_map(fd_job, jobs) + core.pool_map(qfd_job, qjobs) + core.pool_map(dispatch_job, hist, chunksize=50)
     for k, o in enumerate(obs):
         o["id"] = k
